@@ -57,6 +57,49 @@ static const Avtp_FieldDescriptor_t Avtp_VssFieldDesc[AVTP_VSS_FIELD_MAX] =
     [AVTP_VSS_FIELD_MSG_TIMESTAMP]      = { .quadlet = 1, .offset =  0, .bits = 64 }
 };
 
+/*
+ * The VSS path and data follow each other at arbitrary byte offsets, so all
+ * multi-byte wire values are moved with memcpy instead of typed pointers.
+ */
+static inline uint16_t Avtp_Vss_LoadBe16(const uint8_t* ptr)
+{
+    uint16_t value;
+    memcpy(&value, ptr, sizeof(value));
+    return Avtp_BeToCpu16(value);
+}
+
+static inline uint32_t Avtp_Vss_LoadBe32(const uint8_t* ptr)
+{
+    uint32_t value;
+    memcpy(&value, ptr, sizeof(value));
+    return Avtp_BeToCpu32(value);
+}
+
+static inline uint64_t Avtp_Vss_LoadBe64(const uint8_t* ptr)
+{
+    uint64_t value;
+    memcpy(&value, ptr, sizeof(value));
+    return Avtp_BeToCpu64(value);
+}
+
+static inline void Avtp_Vss_StoreBe16(uint8_t* ptr, uint16_t value)
+{
+    value = Avtp_CpuToBe16(value);
+    memcpy(ptr, &value, sizeof(value));
+}
+
+static inline void Avtp_Vss_StoreBe32(uint8_t* ptr, uint32_t value)
+{
+    value = Avtp_CpuToBe32(value);
+    memcpy(ptr, &value, sizeof(value));
+}
+
+static inline void Avtp_Vss_StoreBe64(uint8_t* ptr, uint64_t value)
+{
+    value = Avtp_CpuToBe64(value);
+    memcpy(ptr, &value, sizeof(value));
+}
+
 void Avtp_Vss_Init(Avtp_Vss_t* vss_pdu) {
 
     if(vss_pdu != NULL) {
@@ -132,9 +175,9 @@ void Avtp_Vss_GetVssPath(Avtp_Vss_t* pdu, VssPath_t* val) {
     Vss_AddrMode_t addr_mode = Avtp_Vss_GetAddrMode(pdu);
 
     if (addr_mode == VSS_STATIC_ID_MODE) {
-        val->vss_static_id_path = Avtp_BeToCpu32(*(uint32_t*)vss_path_ptr);
+        val->vss_static_id_path = Avtp_Vss_LoadBe32(vss_path_ptr);
     } else if (addr_mode == VSS_INTEROP_MODE) {
-        val->vss_interop_path.path_length = Avtp_BeToCpu16(*(uint16_t*)vss_path_ptr);
+        val->vss_interop_path.path_length = Avtp_Vss_LoadBe16(vss_path_ptr);
         memcpy(val->vss_interop_path.path, vss_path_ptr+2, val->vss_interop_path.path_length);
     }
 }
@@ -150,7 +193,7 @@ uint16_t Avtp_Vss_CalcVssPathLength(Avtp_Vss_t* pdu) {
     if (addr_mode == VSS_STATIC_ID_MODE) {
         path_length = 4;
     } else if (addr_mode == VSS_INTEROP_MODE) {
-        path_length = Avtp_BeToCpu16(*(uint16_t*)vss_path_ptr) + 2;
+        path_length = Avtp_Vss_LoadBe16(vss_path_ptr) + 2;
     }
     return path_length;
 }
@@ -162,7 +205,7 @@ uint16_t Avtp_Vss_GetVSSDataStringArrayLength(VssDataStringArray_t* str_array) {
     uint16_t idx = 0, ptr_idx = 0;
     while (ptr_idx < total_length) {
 
-        uint16_t str_length = Avtp_BeToCpu16(*(uint16_t*)(vss_data_string_array_raw+ptr_idx));
+        uint16_t str_length = Avtp_Vss_LoadBe16(vss_data_string_array_raw+ptr_idx);
         ptr_idx += 2 + str_length;
         idx++;
     }
@@ -181,7 +224,7 @@ void Avtp_Vss_DeserializeStringArray(VssDataStringArray_t* vss_data_string_array
     for (int i = 0; i < num_strings; i++) {
         if(idx >= array_length) break;
 
-        strings[i]->data_length = Avtp_BeToCpu16(*(uint16_t*)array_data);
+        strings[i]->data_length = Avtp_Vss_LoadBe16(array_data);
         if (strings[i]->data != NULL) {
             memcpy(strings[i]->data, array_data+2, strings[i]->data_length);
         }
@@ -211,27 +254,27 @@ void Avtp_Vss_GetVssData(Avtp_Vss_t* pdu, VssData_t* val) {
             break;
 
         case VSS_UINT16:
-            val->data_uint16 = Avtp_BeToCpu16(*(uint16_t*) vss_data_ptr);
+            val->data_uint16 = Avtp_Vss_LoadBe16(vss_data_ptr);
             break;
 
         case VSS_INT16:
-            val->data_int16 =  (int16_t) Avtp_BeToCpu16(*(uint16_t*) vss_data_ptr);
+            val->data_int16 =  (int16_t) Avtp_Vss_LoadBe16(vss_data_ptr);
             break;
 
         case VSS_UINT32:
-            val->data_uint32 = Avtp_BeToCpu32(*(uint32_t*) vss_data_ptr);
+            val->data_uint32 = Avtp_Vss_LoadBe32(vss_data_ptr);
             break;
 
         case VSS_INT32:
-            val->data_int32 = (int32_t) Avtp_BeToCpu32(*(uint32_t*) vss_data_ptr);
+            val->data_int32 = (int32_t) Avtp_Vss_LoadBe32(vss_data_ptr);
             break;
 
         case VSS_UINT64:
-            val->data_uint64 = Avtp_BeToCpu64(*(uint64_t*) vss_data_ptr);
+            val->data_uint64 = Avtp_Vss_LoadBe64(vss_data_ptr);
             break;
 
         case VSS_INT64:
-            val->data_int64 = (int64_t) Avtp_BeToCpu64(*(uint64_t*) vss_data_ptr);
+            val->data_int64 = (int64_t) Avtp_Vss_LoadBe64(vss_data_ptr);
             break;
 
         case VSS_BOOL:
@@ -239,127 +282,127 @@ void Avtp_Vss_GetVssData(Avtp_Vss_t* pdu, VssData_t* val) {
             break;
 
         case VSS_FLOAT:
-            temp_float =  Avtp_BeToCpu32(*(uint32_t*) vss_data_ptr);
+            temp_float =  Avtp_Vss_LoadBe32(vss_data_ptr);
             memcpy(&(val->data_float), &temp_float, sizeof(float));
             break;
 
         case VSS_DOUBLE:
-            temp_double = Avtp_BeToCpu64(*(uint64_t*) vss_data_ptr);
+            temp_double = Avtp_Vss_LoadBe64(vss_data_ptr);
             memcpy(&(val->data_double), &temp_double, sizeof(double));
             break;
 
         case VSS_STRING:
-            val->data_string->data_length = Avtp_BeToCpu16(*(uint16_t*)vss_data_ptr);
+            val->data_string->data_length = Avtp_Vss_LoadBe16(vss_data_ptr);
             if (val->data_string->data != NULL) {
                 memcpy(val->data_string->data, vss_data_ptr+2, val->data_string->data_length);
             }
             break;
 
         case VSS_UINT8_ARRAY:
-            val->data_uint8_array->data_length = Avtp_BeToCpu16(*(uint16_t*)vss_data_ptr);
+            val->data_uint8_array->data_length = Avtp_Vss_LoadBe16(vss_data_ptr);
             if (val->data_uint8_array->data != NULL) {
                 memcpy(val->data_uint8_array->data, vss_data_ptr+2, val->data_uint8_array->data_length);
             }
             break;
 
         case VSS_INT8_ARRAY:
-            val->data_int8_array->data_length = Avtp_BeToCpu16(*(uint16_t*)vss_data_ptr);
+            val->data_int8_array->data_length = Avtp_Vss_LoadBe16(vss_data_ptr);
             if (val->data_int8_array->data != NULL) {
                 memcpy(val->data_int8_array->data, vss_data_ptr+2, val->data_int8_array->data_length);
             }
             break;
 
         case VSS_UINT16_ARRAY:
-            val->data_uint16_array->data_length = Avtp_BeToCpu16(*(uint16_t*)vss_data_ptr);
+            val->data_uint16_array->data_length = Avtp_Vss_LoadBe16(vss_data_ptr);
             vss_data_ptr += 2;
             if (val->data_uint16_array->data != NULL) {
                 for (int i = 0; i < val->data_uint16_array->data_length/2; i++) {
-                    *(val->data_uint16_array->data + i) = Avtp_BeToCpu16(*((uint16_t*)vss_data_ptr+i));
+                    *(val->data_uint16_array->data + i) = Avtp_Vss_LoadBe16(vss_data_ptr + i * sizeof(uint16_t));
                 }
             }
             break;
 
         case VSS_INT16_ARRAY:
-            val->data_int16_array->data_length = Avtp_BeToCpu16(*(uint16_t*)vss_data_ptr);
+            val->data_int16_array->data_length = Avtp_Vss_LoadBe16(vss_data_ptr);
             vss_data_ptr += 2;
             if (val->data_int16_array->data != NULL) {
                 for (int i = 0; i < val->data_int16_array->data_length/2; i++) {
-                    *(val->data_int16_array->data + i) = (int16_t) Avtp_BeToCpu16(*((uint16_t*)vss_data_ptr+i));
+                    *(val->data_int16_array->data + i) = (int16_t) Avtp_Vss_LoadBe16(vss_data_ptr + i * sizeof(uint16_t));
                 }
             }
             break;
 
         case VSS_UINT32_ARRAY:
-            val->data_uint32_array->data_length = Avtp_BeToCpu16(*(uint16_t*)vss_data_ptr);
+            val->data_uint32_array->data_length = Avtp_Vss_LoadBe16(vss_data_ptr);
             vss_data_ptr += 2;
             if (val->data_uint32_array->data != NULL) {
                 for (int i = 0; i < val->data_uint32_array->data_length/4; i++) {
-                    *(val->data_uint32_array->data + i) = Avtp_BeToCpu32(*((uint32_t*)vss_data_ptr+i));
+                    *(val->data_uint32_array->data + i) = Avtp_Vss_LoadBe32(vss_data_ptr + i * sizeof(uint32_t));
                 }
             }
             break;
 
         case VSS_INT32_ARRAY:
-            val->data_int32_array->data_length = Avtp_BeToCpu16(*(uint16_t*)vss_data_ptr);
+            val->data_int32_array->data_length = Avtp_Vss_LoadBe16(vss_data_ptr);
             vss_data_ptr += 2;
             if (val->data_int32_array->data != NULL) {
                 for (int i = 0; i < val->data_int32_array->data_length/4; i++) {
-                    *(val->data_int32_array->data + i) = (int32_t) Avtp_BeToCpu32(*((uint32_t*)vss_data_ptr+i));
+                    *(val->data_int32_array->data + i) = (int32_t) Avtp_Vss_LoadBe32(vss_data_ptr + i * sizeof(uint32_t));
                 }
             }
             break;
 
         case VSS_UINT64_ARRAY:
-            val->data_uint64_array->data_length = Avtp_BeToCpu16(*(uint16_t*)vss_data_ptr);
+            val->data_uint64_array->data_length = Avtp_Vss_LoadBe16(vss_data_ptr);
             vss_data_ptr += 2;
             if (val->data_int64_array->data != NULL) {
                 for (int i = 0; i < val->data_uint64_array->data_length/8; i++) {
-                    *(val->data_uint64_array->data + i) = Avtp_BeToCpu64(*((uint64_t*)vss_data_ptr+i));
+                    *(val->data_uint64_array->data + i) = Avtp_Vss_LoadBe64(vss_data_ptr + i * sizeof(uint64_t));
                 }
             }
             break;
 
         case VSS_INT64_ARRAY:
-            val->data_int64_array->data_length = Avtp_BeToCpu16(*(uint16_t*)vss_data_ptr);
+            val->data_int64_array->data_length = Avtp_Vss_LoadBe16(vss_data_ptr);
             vss_data_ptr += 2;
             if (val->data_int64_array->data != NULL) {
                 for (int i = 0; i < val->data_int64_array->data_length/8; i++) {
-                    *(val->data_int64_array->data + i) = (int64_t) Avtp_BeToCpu64(*((uint64_t*)vss_data_ptr+i));
+                    *(val->data_int64_array->data + i) = (int64_t) Avtp_Vss_LoadBe64(vss_data_ptr + i * sizeof(uint64_t));
                 }
             }
             break;
 
         case VSS_BOOL_ARRAY:
-            val->data_bool_array->data_length = Avtp_BeToCpu16(*(uint16_t*)vss_data_ptr);
+            val->data_bool_array->data_length = Avtp_Vss_LoadBe16(vss_data_ptr);
             if (val->data_bool_array->data != NULL) {
                 memcpy(val->data_bool_array->data, vss_data_ptr+2, val->data_bool_array->data_length);
             }
             break;
 
         case VSS_FLOAT_ARRAY:
-            val->data_float_array->data_length = Avtp_BeToCpu16(*(uint16_t*)vss_data_ptr);
+            val->data_float_array->data_length = Avtp_Vss_LoadBe16(vss_data_ptr);
             vss_data_ptr += 2;
             if (val->data_float_array->data != NULL) {
                 for (int i = 0; i < val->data_float_array->data_length/4; i++) {
-                    uint32_t temp_float = Avtp_BeToCpu32(*((uint32_t*)vss_data_ptr+i));
+                    uint32_t temp_float = Avtp_Vss_LoadBe32(vss_data_ptr + i * sizeof(uint32_t));
                     memcpy(val->data_float_array->data + i, &temp_float, sizeof(float));
                 }
             }
             break;
 
         case VSS_DOUBLE_ARRAY:
-            val->data_double_array->data_length = Avtp_BeToCpu16(*(uint16_t*)vss_data_ptr);
+            val->data_double_array->data_length = Avtp_Vss_LoadBe16(vss_data_ptr);
             vss_data_ptr += 2;
             if (val->data_double_array->data != NULL) {
                 for (int i = 0; i < val->data_double_array->data_length/8; i++) {
-                    uint64_t temp_double = Avtp_BeToCpu64(*((uint64_t*)vss_data_ptr+i));
+                    uint64_t temp_double = Avtp_Vss_LoadBe64(vss_data_ptr + i * sizeof(uint64_t));
                     memcpy(val->data_double_array->data + i, &temp_double, sizeof(double));
                 }
             }
             break;
 
         case VSS_STRING_ARRAY:
-            val->data_string_array->data_length = Avtp_BeToCpu16(*(uint16_t*)vss_data_ptr);
+            val->data_string_array->data_length = Avtp_Vss_LoadBe16(vss_data_ptr);
             vss_data_ptr += 2;
             if (val->data_double_array->data != NULL) {
                 memcpy(val->data_string_array->data, vss_data_ptr, val->data_string_array->data_length);
@@ -412,11 +455,9 @@ void Avtp_Vss_SetVssPath(Avtp_Vss_t* pdu, VssPath_t* val)
     Vss_AddrMode_t addr_mode = Avtp_Vss_GetAddrMode(pdu);
 
     if (addr_mode == VSS_STATIC_ID_MODE) {
-        uint32_t* static_id = (uint32_t*) vss_path_ptr;
-        *static_id = Avtp_CpuToBe32(val->vss_static_id_path);
+        Avtp_Vss_StoreBe32(vss_path_ptr, val->vss_static_id_path);
     } else if (addr_mode == VSS_INTEROP_MODE) {
-        uint16_t* interop_path_len = (uint16_t*) vss_path_ptr;
-        *interop_path_len = Avtp_CpuToBe16(val->vss_interop_path.path_length);
+        Avtp_Vss_StoreBe16(vss_path_ptr, val->vss_interop_path.path_length);
         memcpy(vss_path_ptr+2, val->vss_interop_path.path, val->vss_interop_path.path_length);
     }
 }
@@ -442,27 +483,27 @@ void Avtp_Vss_SetVssData(Avtp_Vss_t* pdu, VssData_t* val) {
             break;
 
         case VSS_UINT16:
-            *(uint16_t*) vss_data_ptr = Avtp_CpuToBe16(val->data_uint16);
+            Avtp_Vss_StoreBe16(vss_data_ptr, val->data_uint16);
             break;
 
         case VSS_INT16:
-            *(int16_t*) vss_data_ptr = (int16_t)Avtp_CpuToBe16((uint16_t)val->data_int16);
+            Avtp_Vss_StoreBe16(vss_data_ptr, (uint16_t)val->data_int16);
             break;
 
         case VSS_UINT32:
-            *(uint32_t*) vss_data_ptr = Avtp_CpuToBe32(val->data_uint32);
+            Avtp_Vss_StoreBe32(vss_data_ptr, val->data_uint32);
             break;
 
         case VSS_INT32:
-            *(int32_t*) vss_data_ptr = (int32_t)Avtp_CpuToBe32((uint32_t)val->data_int32);
+            Avtp_Vss_StoreBe32(vss_data_ptr, (uint32_t)val->data_int32);
             break;
 
         case VSS_UINT64:
-            *(uint64_t*) vss_data_ptr = Avtp_CpuToBe64(val->data_uint64);
+            Avtp_Vss_StoreBe64(vss_data_ptr, val->data_uint64);
             break;
 
         case VSS_INT64:
-            *(int64_t*) vss_data_ptr = (int64_t)Avtp_CpuToBe64((uint64_t)val->data_int64);
+            Avtp_Vss_StoreBe64(vss_data_ptr, (uint64_t)val->data_int64);
             break;
 
         case VSS_BOOL:
@@ -480,89 +521,89 @@ void Avtp_Vss_SetVssData(Avtp_Vss_t* pdu, VssData_t* val) {
             break;
 
         case VSS_STRING:
-            *(uint16_t*)vss_data_ptr = Avtp_CpuToBe16(val->data_string->data_length);
+            Avtp_Vss_StoreBe16(vss_data_ptr, val->data_string->data_length);
             memcpy(vss_data_ptr+2, val->data_string->data,
                     val->data_string->data_length);
             break;
 
         case VSS_UINT8_ARRAY:
-            *(uint16_t*)vss_data_ptr = Avtp_CpuToBe16(val->data_uint8_array->data_length);
+            Avtp_Vss_StoreBe16(vss_data_ptr, val->data_uint8_array->data_length);
             memcpy(vss_data_ptr+2, val->data_uint8_array->data,
                     val->data_uint8_array->data_length);
             break;
 
         case VSS_INT8_ARRAY:
-            *(uint16_t*)vss_data_ptr = Avtp_CpuToBe16(val->data_int8_array->data_length);
+            Avtp_Vss_StoreBe16(vss_data_ptr, val->data_int8_array->data_length);
             memcpy(vss_data_ptr+2, val->data_int8_array->data,
                     val->data_int8_array->data_length);
             break;
 
         case VSS_UINT16_ARRAY:
-            *(uint16_t*)vss_data_ptr = Avtp_CpuToBe16(val->data_uint16_array->data_length);
+            Avtp_Vss_StoreBe16(vss_data_ptr, val->data_uint16_array->data_length);
             for (int i = 0; i < val->data_uint16_array->data_length/2; i++) {
-                *((uint16_t*)(vss_data_ptr+2) + i) = Avtp_CpuToBe16(*(val->data_uint16_array->data+i));
+                Avtp_Vss_StoreBe16(vss_data_ptr + 2 + i * sizeof(uint16_t), *(val->data_uint16_array->data+i));
             }
             break;
 
         case VSS_INT16_ARRAY:
-            *(uint16_t*)vss_data_ptr = Avtp_CpuToBe16(val->data_int16_array->data_length);
+            Avtp_Vss_StoreBe16(vss_data_ptr, val->data_int16_array->data_length);
             for (int i = 0; i < val->data_int16_array->data_length/2; i++) {
-                *((int16_t*)(vss_data_ptr+2) + i) = Avtp_CpuToBe16(*(val->data_int16_array->data+i));
+                Avtp_Vss_StoreBe16(vss_data_ptr + 2 + i * sizeof(uint16_t), *(val->data_int16_array->data+i));
             }
             break;
 
         case VSS_UINT32_ARRAY:
-            *(uint16_t*)vss_data_ptr = Avtp_CpuToBe16(val->data_uint32_array->data_length);
+            Avtp_Vss_StoreBe16(vss_data_ptr, val->data_uint32_array->data_length);
             for (int i = 0; i < val->data_uint32_array->data_length/4; i++) {
-                *((uint32_t*)(vss_data_ptr+2) + i) = Avtp_CpuToBe32(*(val->data_uint32_array->data+i));
+                Avtp_Vss_StoreBe32(vss_data_ptr + 2 + i * sizeof(uint32_t), *(val->data_uint32_array->data+i));
             }
             break;
 
         case VSS_INT32_ARRAY:
-            *(uint16_t*)vss_data_ptr = Avtp_CpuToBe16(val->data_int32_array->data_length);
+            Avtp_Vss_StoreBe16(vss_data_ptr, val->data_int32_array->data_length);
             for (int i = 0; i < val->data_int32_array->data_length/4; i++) {
-                *((int32_t*)(vss_data_ptr+2) + i) = Avtp_CpuToBe32(*(val->data_int32_array->data+i));
+                Avtp_Vss_StoreBe32(vss_data_ptr + 2 + i * sizeof(uint32_t), *(val->data_int32_array->data+i));
             }
             break;
 
         case VSS_UINT64_ARRAY:
-            *(uint16_t*)vss_data_ptr = Avtp_CpuToBe16(val->data_uint64_array->data_length);
+            Avtp_Vss_StoreBe16(vss_data_ptr, val->data_uint64_array->data_length);
             for (int i = 0; i < val->data_uint64_array->data_length/8; i++) {
-                *((uint64_t*)(vss_data_ptr+2) + i) = Avtp_CpuToBe64(*(val->data_uint64_array->data+i));
+                Avtp_Vss_StoreBe64(vss_data_ptr + 2 + i * sizeof(uint64_t), *(val->data_uint64_array->data+i));
             }
             break;
 
         case VSS_INT64_ARRAY:
-            *(uint16_t*)vss_data_ptr = Avtp_CpuToBe16(val->data_int64_array->data_length);
+            Avtp_Vss_StoreBe16(vss_data_ptr, val->data_int64_array->data_length);
             for (int i = 0; i < val->data_int64_array->data_length/8; i++) {
-                *((int64_t*)(vss_data_ptr+2) + i) = Avtp_CpuToBe64(*(val->data_int64_array->data+i));
+                Avtp_Vss_StoreBe64(vss_data_ptr + 2 + i * sizeof(uint64_t), *(val->data_int64_array->data+i));
             }
             break;
 
         case VSS_BOOL_ARRAY:
-            *(uint16_t*)vss_data_ptr = Avtp_CpuToBe16(val->data_bool_array->data_length);
+            Avtp_Vss_StoreBe16(vss_data_ptr, val->data_bool_array->data_length);
             memcpy(vss_data_ptr+2, val->data_bool_array->data,
                     val->data_bool_array->data_length);
             break;
 
         case VSS_FLOAT_ARRAY:
-            *(uint16_t*)vss_data_ptr = Avtp_CpuToBe16(val->data_float_array->data_length);
+            Avtp_Vss_StoreBe16(vss_data_ptr, val->data_float_array->data_length);
             for (int i = 0; i < val->data_float_array->data_length/4; i++) {
                 uint32_t temp_float = Avtp_CpuToBe32(*(uint32_t*)(val->data_float_array->data+i));
-                memcpy((uint32_t*)(vss_data_ptr+2) + i, &temp_float, sizeof(float));
+                memcpy(vss_data_ptr + 2 + i * sizeof(uint32_t), &temp_float, sizeof(float));
             }
             break;
 
         case VSS_DOUBLE_ARRAY:
-            *(uint16_t*)vss_data_ptr = Avtp_CpuToBe16(val->data_double_array->data_length);
+            Avtp_Vss_StoreBe16(vss_data_ptr, val->data_double_array->data_length);
             for (int i = 0; i < val->data_double_array->data_length/8; i++) {
                 uint64_t temp_double = Avtp_CpuToBe64(*(uint64_t*)(val->data_double_array->data+i));
-                memcpy((uint64_t*)(vss_data_ptr+2) + i, &temp_double, sizeof(double));
+                memcpy(vss_data_ptr + 2 + i * sizeof(uint64_t), &temp_double, sizeof(double));
             }
             break;
 
         case VSS_STRING_ARRAY:
-            *(uint16_t*)vss_data_ptr = Avtp_CpuToBe16(val->data_string_array->data_length);
+            Avtp_Vss_StoreBe16(vss_data_ptr, val->data_string_array->data_length);
             vss_data_ptr += 2;
             memcpy(vss_data_ptr, val->data_string_array->data, val->data_string_array->data_length);
             break;
@@ -582,7 +623,7 @@ void Avtp_Vss_SerializeStringArray(VssDataStringArray_t* vss_data_string_array,
     for (int i = 0; i < num_strings; i++) {
         total_length += strings[i]->data_length+2;
 
-        *(uint16_t*)data = Avtp_CpuToBe16(strings[i]->data_length);
+        Avtp_Vss_StoreBe16(data, strings[i]->data_length);
         memcpy(data+2, strings[i]->data, strings[i]->data_length);
         data += strings[i]->data_length+2;
     }
